@@ -1133,6 +1133,14 @@ class RZILTransformer(Transformer):
         name = f'const_{"neg" if result < 0 else "pos"}_{result}'
         return Number(name, result, a_type)
 
+    @staticmethod
+    def const_as_type(val: int, val_type: ValueType) -> int:
+        """The value a constant has after conversion to the given integer type."""
+        val &= (1 << val_type.bit_width) - 1
+        if val_type.signed and val >> (val_type.bit_width - 1):
+            val -= 1 << val_type.bit_width
+        return val
+
     def simplify_arithmetic_expr(self, items) -> Pure:
         """
         Checks if the given arithmetic expression can be simplified.
@@ -1148,8 +1156,9 @@ class RZILTransformer(Transformer):
         if not isinstance(a.get_val(), int) or not isinstance(b.get_val(), int):
             return None
 
-        val_a = a.get_val()
-        val_b = b.get_val()
+        a_type, b_type = c11_cast(a.value_type, b.value_type)
+        val_a = self.const_as_type(self.const_as_type(a.get_val(), a.value_type), a_type)
+        val_b = self.const_as_type(self.const_as_type(b.get_val(), b.value_type), b_type)
         self.il_ops_holder.rm_op_by_name(a.get_name())
         self.il_ops_holder.rm_op_by_name(b.get_name())
         match operation:
@@ -1163,7 +1172,8 @@ class RZILTransformer(Transformer):
                 result = val_a / val_b
             case _:
                 raise NotImplementedError(f"Can not simplify '{operation}' expression.")
-        a_type, b_type = c11_cast(a.value_type, b.value_type)
+        if not a_type.signed:
+            result = self.const_as_type(result, a_type)
 
         name = f'const_{"neg" if items[0] == "-" else "pos"}{items[1]}{items[2] if items[2] else ""}'
         return Number(name, result, a_type)
@@ -1183,8 +1193,10 @@ class RZILTransformer(Transformer):
         if not isinstance(a.get_val(), int) or not isinstance(b.get_val(), int):
             return None
 
-        val_a = a.get_val()
-        val_b = b.get_val()
+        # Compare the values both constants have in their common type (C11 6.3.1.8).
+        a_type, b_type = c11_cast(a.value_type, b.value_type)
+        val_a = self.const_as_type(self.const_as_type(a.get_val(), a.value_type), a_type)
+        val_b = self.const_as_type(self.const_as_type(b.get_val(), b.value_type), b_type)
         self.il_ops_holder.rm_op_by_name(a.get_name())
         self.il_ops_holder.rm_op_by_name(b.get_name())
         match operation:
